@@ -13,7 +13,7 @@ P = {
          "every token yielded must belong to an accepted, completed, not yet yielded child; Ready(None) iff the model is empty; Pending never when empty; the epilogue completes and wakes everything and requires every accepted child to come out",
          "exploration over generated histories up to ~370 children / 8 groups; no absence claim"),
  'C03': ("stateful PBT: ownership ledger of the shared waker block (probes H1) + poisoned quarantine, over proptest histories, generated thread schedules (shuttle) and real threads under Miri",
-         "block alloc/release and every waker-vtable entry are reported by add-only probes before anything is dereferenced; ledger rules: released exactly once, only with zero outstanding clones, never while its group is live, no vtable entry into a released block, nothing leaked at the end of the case; all death orders of collection and wakers are generated",
+         "block alloc/release and every waker-vtable entry are reported by add-only probes before anything is dereferenced; ledger rules: released exactly once, only with zero outstanding clones, never while its group is live, no vtable entry into a released block, nothing leaked at the end of the case - neither a block nor a task waker cached in a block's header (the harness counts its own task-waker objects); all death orders of collection and wakers are generated",
          "ledger + write-after-free detection single-threaded (E1) and under generated SC schedules (E2); data races and ordering bugs proper only through Miri on generated real-thread scenarios (E4: 8 scheduler seeds quick, 48 thorough); a non-atomic read-modify-write inside waker_list.rs cannot be split by the add-only scheduling hook (found by Miri instead)"),
  'C04': ("stateful PBT: proptest histories vs VecDeque reference model with seeded position counters (hook H2)",
          "ordered collections are compared after every poll with a deque model under push_back/push_front; both position counters are seeded anywhere including next to 0, 2^63 and usize::MAX so wrap and re-base paths run; ordered adapters must yield in upstream order; join outputs must sit at their input index",
@@ -43,10 +43,10 @@ P = {
          "wakes are attributed to the slot they hit and coalesced exactly like the queued flag (repeated wakes between two polls of a child count once); the inequality is evaluated after every operation",
          "exploration"),
  'C13': ("PBT on adversarial populations: bounded-delay and bounded-work counters",
-         "forever self-waking futures, endless sources and push-one/pop-one refill around a victim that is woken once; a woken child must be polled within (G+1)(N+2)+4 collection polls (G groups, N capacity) and one call may make at most 61(2G+1)(events+2) child polls; an unbounded loop is cut by a hard cap and reported",
+         "forever self-waking futures, endless sources and push-one/pop-one refill around a victim that is woken once; a woken child must be polled within (G+1)(N+2)+4 collection polls (G groups, N capacity) and one call may make at most 1024(2G+1)(events+2) child polls (no oracle depends on today's budget of 61); an unbounded loop is cut by a hard cap and reported",
          "exploration; bounds are deliberately generous because failures are unbounded"),
  'C14': ("stateful PBT: task-waker invocation ledger + Settle probes",
-         "every invocation of a task waker outside a poll must happen inside a bracketed child-waker (or upstream) invocation made by the environment; Settle freezes every child (pending, silent) and requires a clean Pending within held+2 (+stale/61) polls",
+         "every invocation of a task waker outside a poll must happen inside a bracketed child-waker (or upstream) invocation made by the environment; Settle freezes every child (pending, silent) and requires a clean Pending within held+2 (+one per stale invocation) polls",
          "exploration"),
  'C15': ("stateful PBT: counting model of capacity and observers",
          "capacities 0..300; push accepted iff fewer than n running; refusal returns the very same unpolled, undropped future; panicking push leaves observers unchanged and drops its argument once; len/is_empty/size_hint/is_terminated/capacity compared with the model after every operation",
